@@ -262,6 +262,50 @@ static void run_lra_case(const LraCase &c, const std::string &txt)
   };
   bool any_point = false;
   std::string shapes;
+  // merely requesting literals must not ENLARGE the set of solutions either: a grid point that violates a stated root
+  // constraint and cannot be pinned after the prelude alone must not become pinnable after the requests
+  for (auto &gx : GRID)
+    for (auto &gy : GRID)
+    {
+      if (stated(gx, gy))
+        continue;
+      bool pin_ok[2] = {false, false};
+      for (int with_requests = 0; with_requests < 2; ++with_requests)
+      {
+        ++g_replays;
+        vf::Arena::Scope arena;
+        sat_core sat;
+        lra_theory th(sat);
+        var x = th.new_var(), y = th.new_var();
+        if (c.pre->slack)
+          g_s = lin(th.new_var(lin(x, rational::ONE) + lin(y, rational::ONE) + lin(rational(3))), rational::ONE);
+        bool ok = true;
+        for (auto &q : c.pre->cs)
+          ok = ok && assert_root(sat, th, q, x, y);
+        for (size_t i = 0; i < c.reqs.size() && ok; ++i)
+        {
+          if (i == 1 && c.mid >= 0)
+            for (auto &q : PRE[c.mid].cs)
+              ok = ok && assert_root(sat, th, q, x, y);
+          if (ok && with_requests)
+            request(th, c.reqs[i], x, y);
+        }
+        if (c.reqs.size() < 2 && c.mid >= 0)
+          for (auto &q : PRE[c.mid].cs)
+            ok = ok && assert_root(sat, th, q, x, y);
+        bool pinned = ok && th.set(x, inf_rational(mk_rat(gx)), TRUE_lit) && th.set(y, inf_rational(mk_rat(gy)), TRUE_lit);
+        if (pinned)
+          pinned = sat.propagate();
+        else
+          th.cnfl.clear();
+        pin_ok[with_requests] = pinned;
+      }
+      if (!pin_ok[0] && pin_ok[1])
+      {
+        vf::finding("C11:solution-gained-after-request", txt + " @ x=" + ref::str(gx) + " y=" + ref::str(gy), "x,y = (" + ref::str(gx) + "," + ref::str(gy) + ") violates a stated root constraint and is refused after the root constraints alone, but can be asserted once the literals have been requested");
+        return;
+      }
+    }
   for (auto &gx : GRID)
     for (auto &gy : GRID)
     {
@@ -288,8 +332,22 @@ static void run_lra_case(const LraCase &c, const std::string &txt)
         if (!ok)
           break;
         inf_rational lbx = th.lb(x), ubx = th.ub(x), lby = th.lb(y), uby = th.ub(y);
+        // the root bounds of every variable that exists already (slack variables of earlier requests included)
+        std::vector<inf_rational> bounds_before;
+        for (var v = 0; v < th.vals.size(); ++v)
+        {
+          bounds_before.push_back(th.lb(v));
+          bounds_before.push_back(th.ub(v));
+        }
         size_t nv = sat.assigns.size();
         lit l = request(th, c.reqs[i], x, y);
+        for (var v = 0; 2 * v + 1 < bounds_before.size(); ++v)
+          if (th.lb(v) != bounds_before[2 * v] || th.ub(v) != bounds_before[2 * v + 1])
+          {
+            vf::Arena::Pause p;
+            vf::finding(std::string("C11:") + RELN[c.reqs[i].rel] + ":request-changed-root-bounds-of-a-slack", txt, "bounds of the tableau variable x" + std::to_string(v) + " changed by merely requesting " + req_txt(c.reqs[i]));
+            return;
+          }
         L.push_back(l);
         shape.push_back(variable(l) == FALSE_var ? "constant" : variable(l) < nv ? "shared"
                                                                                   : "fresh");
